@@ -81,7 +81,7 @@ def ref_job(job):
             paths.paths_manager.add_named_paths(name="g", paths=['~id: src~ $[1*][ @total = count() tally(#b) @last = #a push("ids", #0) ]'])
             paths.paths_manager.add_named_paths(name="h", paths=['~id: other~ $[*][ @total = "other" ]'])
             paths.paths_manager.add_named_paths(name="user", paths=[
-                '~id: u~ $[*][ @t = $g.variables.total @lastv = $g.variables.last @tx = $g.variables.b.x @hs = $g.headers.b @o = $h.variables.total push("seen", $g.variables.total) ]'])
+                '~id: u~ $[*][ @t = $g.variables.total @lastv = $g.variables.last @tx = $g.variables.tally_b.x @tz = $g.variables.tally_b.nosuchkey @hs = $g.headers.b @o = $h.variables.total push("seen", $g.variables.total) ]'])
             expect = None
             import c10
             for k in range(nruns):
@@ -267,7 +267,8 @@ def run(ctx):
             fails.append({"kind": "the reference scenario raised", "runs_of_g": nruns, "rows": rl, "exc": o["exc"]})
             continue
         e, g = o["expect"], o["got"]
-        want = {"t": e["vars"].get("total"), "lastv": e["vars"].get("last"), "tx": (e["vars"].get("b") or {}).get("x"), "o": "other"}
+        want = {"t": e["vars"].get("total"), "lastv": e["vars"].get("last"), "tx": (e["vars"].get("tally_b") or {}).get("x"), "o": "other",
+                "tz": None}          # a tracking key the variable does not have: None, not the whole variable
         hb = [(l[2] if len(l) > 2 else None) for l in e["lines"]]
         want_hs = [v.strip() for v in hb if v is not None]
         # a reference to a variable the latest run never set (it scanned no data line), or a header reference to a run that collected
@@ -277,8 +278,9 @@ def run(ctx):
             want.pop("t")
         if "last" not in e["vars"]:
             want.pop("lastv")
-        if "b" not in e["vars"]:
+        if "tally_b" not in e["vars"]:
             want.pop("tx")
+            want.pop("tz")
         if not e["lines"]:
             want_hs = g.get("hs")
         bad = {k: (g.get(k), v) for k, v in want.items() if g.get(k) != v}
